@@ -301,6 +301,11 @@ def build_fn(em, src, span, qual, subs, retname='r', declared_only=False):
             raise LostAnchor(f'{qual}: loop {n} not found ({len(loops)} loops)')
         splices.append((loops[n - 1], '\n' + '\n'.join(d.payload).rstrip('\n') + '\n'))
     for d in subs.get('hint', []):
+        if d.arg.strip() == 'start':
+            # at the very beginning of the body (after the R4 `let mut this = self;` line if present)
+            mstart = re.match(r'\{\s*(let mut this = self;)?', body)
+            splices.append((mstart.end(), '\n' + '\n'.join(d.payload).rstrip('\n') + '\n'))
+            continue
         m = re.match(r'(before|after)\s+(\d+)\s+(.*)$', d.arg, re.S)
         if not m:
             raise SystemExit(f'bad @@hint at line {d.lineno}')
